@@ -50,7 +50,9 @@ func sanitizeSelectionSet(ctx *PlanningContext, selectionSet ast.SelectionSet, i
 			inlineFragment := &ast.InlineFragment{
 				TypeCondition:    s.Definition.TypeCondition,
 				Directives:       s.Directives,
-				SelectionSet:     s.Definition.SelectionSet,
+				// sanitizing rewrites selections in place: every spread works on its own copy of the
+				// fragment, so that a second spread of the same fragment gets its helper fields registered too
+				SelectionSet:     copySelectionSet(s.Definition.SelectionSet),
 				ObjectDefinition: s.ObjectDefinition,
 				Position:         s.Position,
 			}
@@ -266,4 +268,30 @@ func selectionSetHasResponseKey(ss ast.SelectionSet, key string) bool {
 		}
 	}
 	return false
+}
+
+// copySelectionSet copies the selections (not the definitions they point to)
+func copySelectionSet(ss ast.SelectionSet) ast.SelectionSet {
+	if ss == nil {
+		return nil
+	}
+	res := make(ast.SelectionSet, len(ss))
+	for i, sel := range ss {
+		switch sel := sel.(type) {
+		case *ast.Field:
+			c := *sel
+			c.SelectionSet = copySelectionSet(sel.SelectionSet)
+			res[i] = &c
+		case *ast.InlineFragment:
+			c := *sel
+			c.SelectionSet = copySelectionSet(sel.SelectionSet)
+			res[i] = &c
+		case *ast.FragmentSpread:
+			c := *sel
+			res[i] = &c
+		default:
+			res[i] = sel
+		}
+	}
+	return res
 }
